@@ -904,6 +904,7 @@ def models(ctx: Ctx, n: int) -> Iterator[Tuple[Any, str]]:
     for c in corpus(ID):
         if "model_pattern" in c:
             yield single_pattern_model(c["model_pattern"]), "corpus"
+    yield length_model(), "length-model"
     for p in MODEL_PATTERNS[: ctx.n(6, len(MODEL_PATTERNS))]:
         yield single_pattern_model(p), "single-pattern"
     for i in range(n):
@@ -930,6 +931,43 @@ def single_pattern_model(p: str) -> Any:
     )
     item = mm.Class(name="Item", props=[mm.Prop("word", mm.Ref("Restricted"))])
     return mm.MM(classes=[item, thing], constrained_primitives=[cp], verification_functions=[fn], xml_namespace="https://example.com/c13")
+
+
+def length_model() -> Any:
+    """Length bounds on strings, byte arrays, lists and list items; a descendant that tightens (excluded by C14)."""
+    from harness import mm
+
+    def le(e: Any, n: int) -> Any:
+        return mm.Comparison(mm.length(e), "<=", mm.Constant(n))
+
+    def ge(e: Any, n: int) -> Any:
+        return mm.Comparison(mm.length(e), ">=", mm.Constant(n))
+
+    fn = mm.PatternFn(name="matches_word", parts=("^[a-c]+$",), style="plain")
+    word = mm.ConstrainedPrimitive(
+        name="Word", base="str", bases=[],
+        invariants=[mm.Invariant("It is a word.", mm.FunctionCall("matches_word", (mm.SELF,))), mm.Invariant("It is short.", le(mm.SELF, 4))],
+    )
+    blob = mm.ConstrainedPrimitive(name="Blob", base="bytes", bases=[], invariants=[mm.Invariant("It is small.", le(mm.SELF, 3)), mm.Invariant("It is not empty.", ge(mm.SELF, 1))])
+    item = mm.Class(name="Item", props=[mm.Prop("word", mm.Ref("Word"))])
+    holder = mm.Class(
+        name="Holder",
+        props=[
+            mm.Prop("title", mm.Prim("str")), mm.Prop("code", mm.OptionalOf(mm.Prim("str"))), mm.Prop("blob", mm.OptionalOf(mm.Ref("Blob"))),
+            mm.Prop("items", mm.ListOf(mm.Ref("Item"))), mm.Prop("words", mm.OptionalOf(mm.ListOf(mm.Ref("Word")))), mm.Prop("flag", mm.Prim("bool")),
+            mm.Prop("count", mm.OptionalOf(mm.Prim("int"))),
+        ],
+        invariants=[
+            mm.Invariant("Title is bounded.", mm.And((ge(mm.prop("title"), 2), le(mm.prop("title"), 5)))),
+            mm.Invariant("Code is short.", mm.Or((mm.IsNone(mm.prop("code")), le(mm.prop("code"), 3)))),
+            mm.Invariant("Items are bounded.", mm.And((ge(mm.prop("items"), 1), le(mm.prop("items"), 3)))),
+            mm.Invariant("Words are few.", mm.Or((mm.IsNone(mm.prop("words")), le(mm.prop("words"), 2)))),
+        ],
+        with_model_type=True,
+    )
+    child = mm.Class(name="Tight_holder", bases=["Holder"], props=[mm.Prop("extra", mm.OptionalOf(mm.Prim("str")))],
+                     invariants=[mm.Invariant("Title is tighter.", le(mm.prop("title"), 3))])
+    return mm.MM(classes=[item, holder, child], constrained_primitives=[word, blob], verification_functions=[fn], xml_namespace="https://example.com/c14")
 
 
 def model_stage(ctx: Ctx, n: int, mutants: bool = False) -> None:
